@@ -9,9 +9,9 @@ package main
 
 import (
 	"fmt"
+	"math/big"
 	"regexp"
 	"runtime"
-	"math/big"
 	"strconv"
 	"strings"
 
